@@ -25,6 +25,7 @@ def trace_cfg(test_mode, qmax, pp_interval=2, skip_fix=True):
             "  SkipFix = %s" % ("TRUE" if skip_fix else "FALSE"),
             "  CctFix = TRUE",
             "  SelfFailFix = TRUE",
+            "  FlushFix = TRUE",
             "  QMax = %d" % qmax,
             "  PPInterval = %d" % pp_interval,
             "  TestMode = %s" % ("TRUE" if test_mode else "FALSE"),
